@@ -68,7 +68,9 @@ class Module:
                 self.structs[m.group(1)] = [ir_type(t) for t in split_top(m.group(2))]
             m = re.match(r"^const (GLOBAL_STRING_\d+): _Str = \[0, `(.*)` as unknown as number\];$", ln, re.S)
             if m:
-                self.strings[m.group(1)] = m.group(2)
+                # the IR executor resolves samlang's escapes in every {"s": ..}; what JavaScript resolves beyond those
+                # (escaped backtick / dollar sign, \x00) is resolved here, and the rest is left in escaped form
+                self.strings[m.group(1)] = re.sub(r"\\x([0-9a-fA-F]{2})", lambda mm: "\\0" if mm.group(1) == "00" else chr(int(mm.group(1), 16)), m.group(2).replace("\\`", "`").replace("\\$", "$"))
             m = re.match(r"^const (" + IDENT + r") = \((.*?)\): (.+?) => ", ln)
             if m and not m.group(1).startswith("GLOBAL_STRING"):
                 ps = []
@@ -103,9 +105,52 @@ class Module:
     def function(self, name):
         params, rt, body = self.fn_lines[name]
         tr = _Fn(self, dict(params))
-        stmts, retval = tr.block([l.strip() for l in body if l.strip()], top=True)
+        stmts, retval = tr.block(block_scoped([l.strip() for l in body if l.strip()], [p for p, _ in params]), top=True)
         return {"name": name, "params": [p for p, _ in params], "ptypes": [t for _, t in params], "ret": rt,
                 "body": stmts, "retval": retval if retval is not None else {"i": 0}}
+
+
+def block_scoped(lines, params):
+    """JavaScript scoping made explicit: `let` / `const` inside a nested block declares a NEW variable that shadows a
+    variable of the same name of an enclosing scope until the block ends (`var` is function scoped and never shadows).
+    A shadowing declaration and its uses inside the block are renamed, so that the IR rebuilt from the text, which has
+    one name space per function, means what JavaScript means."""
+    scopes = [set(params)]          # names declared per open block; scopes[0] is the function scope
+    renames = [{}]                  # per open block: name -> new name
+    out = []
+    fresh = 0
+
+    def rewrite(ln):
+        active = {}
+        for r in renames:
+            active.update(r)
+        for old_, new_ in active.items():
+            ln = re.sub(r"(?<![A-Za-z0-9_$])" + re.escape(old_) + r"(?![A-Za-z0-9_$])", new_.replace("\\", "\\\\"), ln)
+        return ln
+    for ln in lines:
+        if ln == "}" or ln == "} else {":
+            if len(scopes) > 1:
+                scopes.pop()
+                renames.pop()
+        m = re.match(r"^(let|const|var) (" + IDENT + r")\b", ln)
+        if m and m.group(1) != "var" and len(scopes) > 1 and any(m.group(2) in sc for sc in scopes[:-1]) and m.group(2) not in scopes[-1]:
+            # the right-hand side still sees the outer variable (TDZ aside): rewrite it first, then the declared name
+            fresh += 1
+            new_name = "%s$shadow%d" % (m.group(2), fresh)
+            head, sep, rhs = ln.partition(" = ")
+            ln2 = re.sub(r"(?<![A-Za-z0-9_$])" + re.escape(m.group(2)) + r"(?![A-Za-z0-9_$])", new_name, head, count=1)
+            ln = ln2 + sep + rewrite(rhs) if sep else ln2
+            renames[-1][m.group(2)] = new_name
+            scopes[-1].add(m.group(2))
+            out.append(ln)
+        else:
+            if m:
+                (scopes[0] if m.group(1) == "var" else scopes[-1]).add(m.group(2))
+            out.append(rewrite(ln))
+        if ln.endswith("{"):
+            scopes.append(set())
+            renames.append({})
+    return out
 
 
 class _Fn:
@@ -130,7 +175,7 @@ class _Fn:
             # anywhere else a literal is a JavaScript number; irsym compares the number n with the i31 (n - 1) / 2
             return {"i": n}
         if a in self.m.strings:
-            return {"s": self.m.strings[a]}
+            return {"s": self.m.strings[a]}      # (escapes are resolved when the IR is executed, see strings below)
         if a in self.ty:
             return {"v": a, "t": self.ty[a]}
         if a in self.m.sigs:
